@@ -45,17 +45,18 @@ def render_class(c):
 
 def render_assoc(a):
     s = 'CREATE ROP REF_ID R%d FROM %s %s (%s)' % (a['rel'], card(a['src_many'], a['src_cond']), a['src'],
-                                                   ', '.join(a['src_keys']))
+                                                   ', '.join(a.get('src_keys_as') or a['src_keys']))
     if a['src_phrase']:
         s += " PHRASE '%s'" % a['src_phrase']
-    s += ' TO %s %s (%s)' % (card(a['tgt_many'], a['tgt_cond']), a['tgt'], ', '.join(a['tgt_keys']))
+    s += ' TO %s %s (%s)' % (card(a['tgt_many'], a['tgt_cond']), a['tgt'],
+                             ', '.join(a.get('tgt_keys_as') or a['tgt_keys']))
     if a['tgt_phrase']:
         s += " PHRASE '%s'" % a['tgt_phrase']
     return s + ';'
 
 
 def render_unique(u):
-    return 'CREATE UNIQUE INDEX %s ON %s (%s);' % (u['name'], u['kind'], ', '.join(u['attrs']))
+    return 'CREATE UNIQUE INDEX %s ON %s (%s);' % (u['name'], u['kind'], ', '.join(u.get('attrs_as') or u['attrs']))
 
 
 def render_row(c, row, style):
